@@ -74,7 +74,29 @@ def _gen_rows(rng, cols, n):
     return [[enc(rng.choice(VALUES)) for _ in cols] for _ in range(n)]
 
 
+def _gen_keyed(rng, tier, g):
+    """Loads into a table with a PRIMARY KEY / UNIQUE column: a load whose
+    keys collide (with the rows in the table, or among themselves) is a load
+    that fails - IntegrityError, previous contents - and one whose keys do
+    not collide round-trips as ever."""
+    nprior = rng.randint(0, 3)
+    loads = []
+    for i in range(rng.randint(1, 3)):
+        rows = [[rng.randint(1, 7), 'v%d-%d' % (i, j)]
+                for j in range(rng.randint(0, 4))]
+        loads.append([rng.choice(['todb', 'appenddb']), rng.choice(HANDLES),
+                      rows])
+    return {'prop': PROP, 'machine': 'keyed',
+            'constraint': rng.choice(['PRIMARY KEY', 'UNIQUE',
+                                      'PRIMARY KEY']),
+            'prior': [[k, 'p%d' % k] for k in range(1, nprior + 1)],
+            'loads': loads, 'keep_exc': rng.random() < 0.3,
+            'order': rng.choice(['kv', 'vk'])}
+
+
 def gen_case(rng, tier, g):
+    if rng.random() < 0.12:
+        return _gen_keyed(rng, tier, g)
     case = _gen_case(rng, tier, g)
     case['fluent'] = rng.random() < 0.15
     # the host application's petl.config / logging set-up must not matter
@@ -573,10 +595,98 @@ def _one(e, case, path, op, handle, commit, fault, log):
 probes_keep = [0]
 
 
+def _run_keyed(e, case, log):
+    nloads = 0
+    with devices.TempSandbox() as sb:
+        path = os.path.join(sb.path, 'keyed.db')
+        c0 = sqlite3.connect(path)
+        c0.execute('create table t ("k" %s, "v")' % case['constraint'])
+        c0.executemany('insert into t values (?, ?)', case['prior'])
+        c0.commit()
+        c0.close()
+        model = [tuple(r) for r in case['prior']]
+        for li, (op, handle, rows) in enumerate(case['loads']):
+            what = 'table with "k" %s holding %r: %s(%r) through %s' % (
+                case['constraint'], model, op, rows, handle)
+            keys = [r[0] for r in rows]
+            have = [] if op == 'todb' else [r[0] for r in model]
+            collides = len(set(keys)) != len(keys) or \
+                bool(set(keys) & set(have))
+            hdr = ['k', 'v'] if case['order'] == 'kv' else ['v', 'k']
+            table = [hdr] + [list(r) if case['order'] == 'kv'
+                             else [r[1], r[0]] for r in rows]
+            caller = None if handle == 'name' else sqlite3.connect(path)
+            dbo = _mk_dbo(handle, path, caller)
+            raised, kept = None, []
+            try:
+                (e.todb if op == 'todb' else e.appenddb)(
+                    table, dbo, 't', commit=True)
+            except Exception as ex:
+                raised = type(ex)
+                msg = str(ex)
+                if case.get('keep_exc'):
+                    kept.append(ex)
+            del dbo
+            gc.collect()
+            nloads += 1
+            log.add('keyed-load', li, op, handle, collides,
+                    raised.__name__ if raised else None)
+            if caller is not None and raised is not None:
+                caller.rollback()
+            if collides:
+                if raised is None:
+                    new = None
+                elif not issubclass(raised, sqlite3.IntegrityError):
+                    raise _Bad('wrong-exception', '%s: raised %s (%s), the '
+                               'keys collide: expected IntegrityError'
+                               % (what, raised.__name__, msg))
+                else:
+                    new = model
+            else:
+                if raised is not None:
+                    raise _Bad('unexpected-exception', '%s: raised %s: %s '
+                               '(no key collides)' % (what, raised.__name__,
+                                                      msg))
+                new = (model if op == 'appenddb' else []) + \
+                    [tuple(r) for r in rows]
+            rd = sqlite3.connect(path, timeout=0.2)
+            try:
+                got = rd.execute('select k, v from t').fetchall()
+            except sqlite3.OperationalError as ex:
+                raise _Bad('fresh-connection-blocked', '%s: a fresh '
+                           'connection cannot read the table afterwards: %s'
+                           % (what, ex))
+            finally:
+                rd.close()
+            if new is None:
+                raise _Bad('collision-not-reported', '%s: the keys collide '
+                           'but the load reported success; a fresh '
+                           'connection sees %r' % (what, got))
+            if sorted(got) != sorted(new):
+                raise _Bad('wrong-contents', '%s: a fresh connection sees '
+                           '%r, expected %r' % (what, got, new))
+            model = new
+            del kept[:]
+            if caller is not None:
+                caller.close()
+    return nloads
+
+
 def run_case(case):
     e = load_petl()
     log = Log()
     probes_keep[0] = 0
+    if case.get('machine') == 'keyed':
+        try:
+            n = _run_keyed(e, case, log)
+        except _Bad as b:
+            return outcome('violation', vclass=b.vclass, msg=b.msg,
+                           sig={'vclass': b.vclass, 'where': 'keyed'},
+                           digest=log.hexdigest(), extra={'group': 'keyed'})
+        return outcome('ok', digest=log.hexdigest(), steps=n,
+                       probes={'keyed-table-loads': n}, nontrivial=n > 0,
+                       states=['keyed:%s' % case['constraint']],
+                       extra={'group': 'keyed'})
     n = len(case['table']) - 1
     kinds = case.get('exc_kinds') or ['plain']
     if case.get('wide'):
@@ -661,6 +771,21 @@ def warmup():
 
 def shrink_candidates(case):
     import copy
+    if case.get('machine') == 'keyed':
+        for i in range(len(case['loads'])):
+            if len(case['loads']) > 1:
+                c = copy.deepcopy(case)
+                del c['loads'][i]
+                yield c
+            for j in range(len(case['loads'][i][2])):
+                c = copy.deepcopy(case)
+                del c['loads'][i][2][j]
+                yield c
+        if case['prior']:
+            c = copy.deepcopy(case)
+            del c['prior'][-1]
+            yield c
+        return
     if len(case['combos']) > 1:
         for i in range(len(case['combos'])):
             c = copy.deepcopy(case)
